@@ -105,14 +105,6 @@ def showRle (l : List Nat) : String :=
       else go xs (some (x, 1)) ((if n = 1 then toString v else s!"{v}x{n}") :: acc)
   if l.isEmpty then "-" else ",".intercalate (go l none [])
 
-/-- read `n` block switches with the general reader's `Cat.next` (each followed by consuming the whole block) -/
-def readSwitches : Nat → Cat → List Bool → List (Nat × Nat) → Option (List (Nat × Nat) × List Bool)
-  | 0, _, bs, acc => some (acc.reverse, bs)
-  | n + 1, c, bs, acc =>
-    match ({ c with count := 0 } : Cat).next bs with
-    | none => none
-    | some (c', bs') => readSwitches n c' bs' ((c'.btype, c'.count + 1) :: acc)
-
 def b01 (b : Bool) : String := if b then "1" else "0"
 
 def handle (args : List String) : String :=
